@@ -3,7 +3,7 @@ import os
 model on the same cases, projecting and comparing observables."""
 import base64, hashlib, json, os, re, shutil, subprocess, sys, time, unicodedata
 
-ROOT = '/verif'
+ROOT = os.path.dirname(os.path.dirname(os.path.dirname(os.path.abspath(__file__))))   # the checkout this file lives in (/verif, or a snapshot of it)
 REPO = os.environ.get('BORNO_REPO', '/repo')   # default: the repository itself; tools/seedtest.py points the checks at a scratch worktree
 BUILD = os.path.join(ROOT, 'build')
 COQ = os.path.join(ROOT, 'coq')
